@@ -207,6 +207,64 @@ def handle : Handler := fun op inp impl =>
       model := toJson (m.bufs.map fun o => match o with | some x => hex x | none => ""),
       why := if holds then "" else
         s!"strict {str (field inp "codec")} codec, call #{firstBad} ({str (field (steps.getD firstBad Json.null) "m")}) of a sequence of {steps.length}: its result is not kept / does not decode to its own message after the later calls of the sequence (a codec result must not depend on later calls)" }
+  | "codechist" =>
+    let steps := arr (field inp "steps")
+    let isteps := arr (field impl "steps")
+    let codecName := str (field inp "codec")
+    let kindOf (j : Json) : String := str (field j "k")
+    let isEnc (j : Json) : Bool := kindOf j == "marshal" || kindOf j == "stable" || kindOf j == "append"
+    let b (j : Json) (k : String) := bool (field j k)
+    let hx (j : Json) (k : String) : Bytes := unhex (str (field j k))
+    let ps := steps.zip isteps
+    -- the history as the model sees it: values are named by their canonical encoding; a change
+    -- of the caller's is the function the harness performed (its result is reported per step)
+    let hsteps : List (HStep Bytes) := ps.map fun p =>
+      if isEnc p.1 then HStep.encode
+      else if kindOf p.1 == "size" then HStep.size
+      else if kindOf p.1 == "clone" then HStep.clone
+      else HStep.mutate (fun _ => hx p.2 "val")
+    -- the marshaller parameter, per entry point: the encoding of a value is what that entry
+    -- point returns for an object WITHOUT a past (a fresh copy) holding the value
+    let table (kind : String) : List (Bytes × Bytes) := ps.filterMap fun p =>
+      if kindOf p.1 == kind && b p.2 "freshOk" then some (hx p.2 "val", hx p.2 "fresh") else none
+    let codecOf (kind : String) : Codec Bytes :=
+      let t := table kind
+      { enc := fun v => t.lookup v, dec := fun d => (t.find? (·.2 == d)).map fun e => (e.1, []) }
+    let v0 := unhex (str (field inp "msg"))
+    let run (kind : String) := (runHist (codecOf kind) hsteps { value := v0 }).outs
+    let outsM := run "marshal"
+    let outsS := run "stable"
+    let outsA := run "append"
+    let modelOut (i : Nat) (kind : String) : Option Bytes :=
+      ((if kind == "marshal" then outsM else if kind == "stable" then outsS else outsA)[i]?).join.join
+    -- byte-for-byte where the encoder is deterministic (MarshalStable; protojson), else same length
+    -- (the binary encoder orders map entries at random)
+    let sameEnc (kind : String) (x y : Bytes) : Bool :=
+      if kind == "stable" || codecName == "json" then x == y else x.length == y.length
+    let agreeAt (i : Nat) (p : Json × Json) : Bool :=
+      !isEnc p.1 || (match modelOut i (kindOf p.1) with
+        | some m => b p.2 "ok" && sameEnc (kindOf p.1) (hx p.2 "out") m
+        | none => !b p.2 "ok")
+    let holdsAt (p : Json × Json) : Bool :=
+      !isEnc p.1 || histEncodeHolds (b p.2 "ok") (b p.2 "pfxKept") (b p.2 "eqOwn") (b p.2 "eqPlain")
+        (hx p.2 "val") (hx p.2 "backOwn") (hx p.2 "backPlain")
+    let holds := isteps.length == steps.length && ps.all holdsAt
+    let agree := isteps.length == steps.length && (ps.zipIdx.all fun q => agreeAt q.2 q.1)
+    let firstBad : Nat := (ps.findIdx? fun p => !holdsAt p).getD 0
+    let badStep := steps.getD firstBad Json.null
+    let badImpl := isteps.getD firstBad Json.null
+    let encBefore := ((steps.take firstBad).filter fun j => isEnc j || kindOf j == "size").length
+    { agree := agree, holds := holds,
+      nontrivial := encBefore > 0 || ((ps.filter fun p => isEnc p.1).length > 1 && ps.any fun p => b p.2 "changed"),
+      cls := "hist:" ++ codecName,
+      model := toJson ((List.range steps.length).map fun i =>
+        match steps[i]? with | some j => (match modelOut i (kindOf j) with | some x => hex x | none => "") | none => ""),
+      why := if holds then "" else
+        s!"strict {codecName} codec, step #{firstBad} ({kindOf badStep}) of the history of one {str (field inp "type")} object ({encBefore} earlier encode/size steps, then changed): " ++
+        (if !b badImpl "ok" then s!"encoding a valid message failed ({str (field badImpl "err")})"
+         else if !b badImpl "pfxKept" then "the caller's prefix was overwritten"
+         else "the bytes do not decode to the value the object has now") ++
+        " (an encoding is a function of the message's current value, not of what was done with the object before)" }
   | "srvtrailers" =>
     let code := int (field inp "code")
     let msg := unhex (str (field inp "msg"))
